@@ -1,8 +1,8 @@
-\* C35 leg A thorough: 3 local blocks, <= 2 crashes and <= 1 failed bucket call anywhere;
+\* C35 leg A thorough: 3 local blocks, <= 1 crash and <= 1 failed bucket call anywhere (the quick tier has 2 blocks with 2 crashes);
 \* generated cases: 1..2 blocks, pre-state absent/partial/complete, <= 2 crash points
 SPECIFICATION Spec
 CONSTANTS N = 3
-          MaxCrashes = 2
+          MaxCrashes = 1
           Features = {"crash", "fail"}
           MaxFails = 1
           MtLen = 3
